@@ -540,11 +540,29 @@ class Gen:
                                          'kw': {'labels': {'vlan': str(vlan)}}, 'cached': cached}
         return [mk(a, v, True), mk(b, v + 1, False), mk(b, v + 2, True), mk(c, v + 1, True)]
 
+    def same_named_ifaces_macro(self):
+        """Interface names are unique within their service only: two services of one node each get an interface of one name.
+        (Only where the caller asked for it: afterwards [node, name] no longer names ONE interface, which the removal checks rely on.)"""
+        tm = tm_of(self.topo)
+        nodes = [n for n in tm.ids('NetworkNode') if tm.typ(n) != 'Facility']
+        if not nodes:
+            return []
+        n = tm.name(self.rng.choice(nodes))
+        a, b, x = self.fresh('ns'), self.fresh('ns'), self.fresh('p')
+        return [{'op': 'add_node_service', 'node': n, 'name': a, 'node_id': self.maybe_id('ns'), 'nstype': 'MPLS', 'kw': {}},
+                {'op': 'add_node_service', 'node': n, 'name': b, 'node_id': self.maybe_id('ns'), 'nstype': 'VLAN', 'kw': {}},
+                {'op': 'service_add_interface', 'service': a, 'name': x, 'node_id': self.maybe_id('p'), 'itype': 'TrunkPort', 'kw': {}},
+                {'op': 'service_add_interface', 'service': b, 'name': x, 'node_id': self.maybe_id('p'), 'itype': 'TrunkPort', 'kw': {}}]
+
     def next_op(self):
         if getattr(self, 'pending', None):
             return self.pending.pop(0)
         if self.rng.random() < 0.04:
-            self.pending = self.recycle_name_macro() if self.rng.random() < 0.6 else self.two_handles_macro()
+            m = self.rng.random()
+            if m < 0.25 and getattr(self, 'ambiguous_names_ok', False):
+                self.pending = self.same_named_ifaces_macro()
+            else:
+                self.pending = self.recycle_name_macro() if m < 0.7 else self.two_handles_macro()
             if self.pending:
                 return self.pending.pop(0)
         op = self._next_op()
@@ -805,10 +823,11 @@ def new_topology(importer, flavour='experiment'):
     return ExperimentTopology(importer=importer)
 
 
-def run_history(rng, topo, length, flavour='experiment', hook=None, p_valid=0.8):
+def run_history(rng, topo, length, flavour='experiment', hook=None, p_valid=0.8, ambiguous_names_ok=False):
     """Generate and apply `length` operations; hook(op, outcome, exc) is called after each one.
     Returns the list of (op, outcome) pairs."""
     g = Gen(rng, topo, flavour, p_valid)
+    g.ambiguous_names_ok = ambiguous_names_ok
     out = []
     for _ in range(length):
         op = g.next_op()
